@@ -361,7 +361,7 @@ def drv_2d(c, ctx, col):
 
 
 ZVALS = [0.5, 4.0, -1.25, 9.0]
-CONTAINERS = ["list-nan", "list-None", "ndarray", "series", "dict-int-keys", "dict-str-keys", "ndarray-2d"]
+CONTAINERS = ["list-nan", "list-None", "ndarray", "series", "dict-int-keys", "dict-str-keys", "ndarray-2d", "constant-float", "constant-int", "constant-numpy-scalar"]
 
 
 def container(kind, vals):
@@ -381,6 +381,12 @@ def container(kind, vals):
         return {"u": np.array(f), "v": np.array(f) * 2 + 1}
     if kind == "ndarray-2d":
         return np.column_stack([np.array(f), np.ones(len(f))])
+    if kind == "constant-float":
+        return 2.5
+    if kind == "constant-int":
+        return 3
+    if kind == "constant-numpy-scalar":
+        return np.int64(3)
     raise AssertionError(kind)
 
 
@@ -391,6 +397,8 @@ def drv_containers(c, ctx, col):
     kind = c.pick(CONTAINERS)
     formula = c.pick(["z", "z + a", "a + z"])
     z_null = pattern(c, n)
+    if kind.startswith("constant") and z_null:
+        raise Skip()  # a constant has no rows of its own to be null in
     a_null = c.pick([(), (1,)])
     dropname = c.pick(["none", "empty", "{0}", "{0,2}"])
     output = c.pick(["pandas", "numpy", "sparse"])
